@@ -44,6 +44,7 @@ type req struct {
 	Repeat   int             `json:"repeat"`
 	TimeoutM int             `json:"timeoutMs"`
 	NumKind  string          `json:"numKind"` // store integral numbers of the document as this Go kind
+	Tables   string          `json:"tables"`  // "maps": top-level arrays of objects become []map[string]any (typed slices)
 }
 
 // ---------- instrumentation state for the registered test functions ----------
@@ -484,7 +485,26 @@ func opQuery(r *req) (out resp) {
 	if r.NumKind != "" {
 		doc = retype(doc, r.NumKind).(map[string]any)
 	}
-	before, _ := encode(doc)
+	if r.Tables == "maps" {
+		// the engine accepts any slice as a table (AsArray copies it through reflection)
+		for k, v := range doc {
+			if arr, ok := v.([]any); ok && len(arr) > 0 {
+				typed := make([]map[string]any, 0, len(arr))
+				for _, e := range arr {
+					m, ok := e.(map[string]any)
+					if !ok {
+						typed = nil
+						break
+					}
+					typed = append(typed, m)
+				}
+				if typed != nil {
+					doc[k] = typed
+				}
+			}
+		}
+	}
+	before, nonPlainBefore := encode(doc)
 	opts := []genql.QueryOption{}
 	if r.Wrapped {
 		opts = append(opts, genql.Wrapped())
@@ -566,7 +586,8 @@ func opQuery(r *req) (out resp) {
 	out["reported"] = len(reportedErr)
 	reportedMu.Unlock()
 	after, nonPlainDoc := encode(doc)
-	if before != after || len(nonPlainDoc) > 0 {
+	// non-plain values (a thunk, a cycle, a pointer) that were not in the document before the call count as a change
+	if before != after || strings.Join(nonPlainDoc, ",") != strings.Join(nonPlainBefore, ",") {
 		out["docChanged"] = true
 		out["docAfter"] = json.RawMessage(after)
 	}
